@@ -74,8 +74,8 @@ def run(ctx) -> None:
     ap = prog.func(F + ".apply_on_rule")
     sh = prog.func(F + "._should_apply_on_rule")
     cm = prog.module("sigma.conditions")
-    ident_alpha = set(const_eval(prog, cm, _resolve_alias(cm, _module_assign(cm, "identifier")).args[0]))  # type: ignore[attr-defined]
-    pat_alpha = set(const_eval(prog, cm, _resolve_alias(cm, _module_assign(cm, "identifier_pattern")).args[0]))  # type: ignore[attr-defined]
+    from .c02 import condition_grammar, grammar_alphabets
+    ident_alpha, pat_alpha = (set(x) for x in grammar_alphabets(ctx, cm))
     token_alpha = ident_alpha | pat_alpha
 
     # ---------------------------------------------------------------- R1
@@ -119,12 +119,9 @@ def run(ctx) -> None:
     from . import c02
     # grammar keywords re-derived from conditions.py (the sample table below is written for this set)
     gk = set()
-    for nm in ("quantifier", "selector", "condition"):
-        for c in ast.walk(_module_assign(cm, nm)):
-            if isinstance(c, ast.Call) and call_name(c).split(".")[-1] == "Keyword" and c.args:
-                gk.add(const_eval(prog, cm, c.args[0]))
-            if isinstance(c, ast.Tuple) and c.elts and isinstance(c.elts[0], ast.Constant) and isinstance(c.elts[0].value, str):
-                gk.add(c.elts[0].value)
+    for g in condition_grammar(ctx, cm)[0]["condition"].walk():
+        if g.kind in ("Keyword", "CaselessKeyword", "Literal", "CaselessLiteral"):
+            gk.add(g.match)
     if gk == GRAMMAR_KEYWORDS:
         r.ok("C11.R2", "sigma.conditions", f"grammar keywords {sorted(gk)}")
     else:
